@@ -74,6 +74,10 @@ type Summary struct {
 	WallS       float64        `json:"wall_s"`
 	Goarch      string         `json:"goarch"`
 	Skipped     int            `json:"skipped_after_timeouts"`
+	// GuardSkips: cases a dispatch entry answered with class "skipped" (the invoker refused an over-size call and the entry
+	// confirmed that the size guard applies); they are neither evaluations nor passes
+	GuardSkips int            `json:"guard_skips"`
+	SkipTags   map[string]int `json:"guard_skip_tags,omitempty"`
 }
 
 // QA is one oracle query with the answer the Go side gave.
@@ -277,6 +281,14 @@ func (r *Runner) Run(c Case) Verdict {
 
 func (r *Runner) record(c Case, obs w.Val, v Verdict, shrunk bool) {
 	s := &r.Sum
+	if v.Class == "skipped" && v.Bad == "" {
+		s.GuardSkips++
+		if s.SkipTags == nil {
+			s.SkipTags = map[string]int{}
+		}
+		s.SkipTags[c.Fn]++
+		return
+	}
 	s.Evaluations++
 	s.PerFn[c.Fn]++
 	for _, t := range c.Tags {
